@@ -5,5 +5,29 @@ import engcommon
 ID = "C06"
 HARNESS = "c06_harness"
 COQ_TARGETS = engcommon.COQ_BASE + ["Props/C06.vo"]
-DEV = True
 FAST = 6
+
+
+def classify_known(case, meta, finding):
+    """K2 / K2b: any violation on a grammar with an unproductive rule is attributed to the known finding"""
+    return finding["id"] in ("K2", "K2b") and str(meta.get("unproductive", "")) in ("True", "1")
+
+
+def generate(rng, tier):
+    # the C06 oracle searches (position, expectation) candidates per case: smaller volume than the other engine checks
+    if tier == "quick":
+        return engcommon.generate(rng, "quick", enum_size=4, enum_len=3, sample5=300, n_random=800, named_share=0.5)
+    return engcommon.generate(rng, "quick", enum_size=5, enum_len=4, sample5=2000, n_random=6000, named_share=0.5)
+
+
+MANIFEST = {
+    "technique": "Rocq invariant proofs over the engine model (every error in play is justified by a logged failed attempt; coverage invariant for productive grammars) + rendering via C11; the implementation's error text is decoded and checked against its own failed-attempt log",
+    "text": ("Props/C06.v: C06_not_beyond, C06_expectation_real (all trim-free grammars, with the two honest exception clauses), "
+             "C06_guarded, C06_furthest (equality under productivity + guardedness; naming not even needed), C06_render (text format with "
+             "C11's line:column), and the refutations documenting known findings K2/K2b (unproductive rules). The check wraps every "
+             "terminal and End of the real engine to log failed attempts, parses with a Sentence root, and requires the reported text to "
+             "be 'failed to parse the input: <expectation> at f:<line>:<col>' for a position not beyond (named grammars: equal to) the "
+             "furthest failed attempt with an expectation that failed there or a Name of the grammar."),
+    "note": "Trusted: as C01. Known findings K2, K2b (grammars with an unproductive rule) are listed in known_findings.txt and matched narrowly (the grammar has an unproductive rule). SuppressError removes errors by design and is excluded from the equality claim.",
+    "ref": "DESIGN.md section 6, C06",
+}
